@@ -411,3 +411,39 @@ Example det_example :
 Proof.
   cbn [det_prog snd]. repeat split; intros [[n1 m1] h1] [[n2 m2] h2]; vm_compute; reflexivity.
 Qed.
+
+(* ------------------------------------------------------------------ one log entry per command *)
+(* how often the apply loop executes something under the proposal id [id] *)
+Definition executions (id : bytes) (cs : list (bytes * list bytes)) : nat :=
+  List.length (filter (fun c => bytes_eqb (fst c) id) cs).
+
+(* C07_exactly_once_in_order says every log ENTRY is applied once.  That a COMMAND takes effect once
+   needs in addition that it is one entry: the proposal ids in the committed log are pairwise
+   different (a proposal is handed to Raft once, however slow its commit is). *)
+Theorem one_entry_per_ack cs id args :
+  NoDup (map fst cs) -> In (id, args) cs -> executions id cs = 1%nat.
+Proof.
+  unfold executions. induction cs as [|[k a] r IH]; intros Hnd Hin; [destruct Hin|].
+  cbn [map fst] in Hnd. inversion Hnd as [|? ? Hnot Hnd']; subst.
+  cbn [filter fst]. destruct Hin as [E|Hin].
+  - inversion E; subst. rewrite bytes_eqb_refl. cbn [List.length]. f_equal.
+    assert (filter (fun c => bytes_eqb (fst c) id) r = []) as ->; [|reflexivity].
+    clear IH Hnd Hnd'. induction r as [|[k2 a2] r IHr]; [reflexivity|].
+    cbn [filter fst]. destruct (bytes_eqb_spec k2 id) as [->|Hne].
+    + exfalso. apply Hnot. left. reflexivity.
+    + apply IHr. intros H. apply Hnot. right. exact H.
+  - destruct (bytes_eqb_spec k id) as [->|Hne].
+    + exfalso. apply Hnot. apply in_map_iff. exists (id, args). split; auto.
+    + apply IH; assumption.
+Qed.
+
+(* ... and the premise is needed: a proposal that is in the log twice is executed twice by every
+   node, while its client is answered once (with the first result) *)
+Definition w_dup_log : list entry :=
+  number_log 1 [PCmd (B "p1") [B "INCR"; B "n"]; PCmd (B "p1") [B "INCR"; B "n"]].
+Example duplicated_entry_applied_twice :
+  executions (B "p1") (cmds_of w_dup_log) = 2%nat /\
+  db_get (keyspace_after empty_db [(0, 0, RNil); (0, 0, RNil)]%Z w_dup_log) (B "n") = Some (VStr (B "2")) /\
+  map dreply (fst (apply_cmds exec_step [(B "p1", 7%Z)] empty_db [(0, 0, RNil); (0, 0, RNil)]%Z (cmds_of w_dup_log)))
+  = [RInt 1; RInt 2].
+Proof. repeat split; vm_compute; reflexivity. Qed.
